@@ -236,6 +236,7 @@ class Inliner(object):
             stores |= _stores(s)
         pre = []
         direct = {}
+        param_renames = {}
         self.counter += 1
         for p, a in mapping.items():
             simple = isinstance(a, (ast.Name, ast.Constant)) or \
@@ -248,10 +249,10 @@ class Inliner(object):
                 asg = ast.Assign(targets=[ast.Name(id=newname, ctx=ast.Store())], value=copy.deepcopy(a))
                 pre.append(ast.fix_missing_locations(ast.copy_location(asg, a if hasattr(a, 'lineno') else g.node)))
                 if newname != p:
-                    direct[p] = ast.Name(id=newname, ctx=ast.Load())
+                    param_renames[p] = newname      # loads and stores alike: the helper may re-bind its parameter
             else:
                 direct[p] = a
-        renames = {}
+        renames = dict(param_renames)
         if g.parent is None:        # a closure shares its free names with the caller on purpose
             for l in stores - set(mapping):
                 if l in caller_names:
@@ -587,6 +588,7 @@ def apply(project, resolver, report_note=None):
                 continue
             n += 1
             old = fn.node
+            fn.orig_body = list(old.body)       # the function as written (for rules about the shape of the source itself)
             # graft the expanded body into the original FunctionDef object, so that every reference to the node
             # (class bodies, module trees, nested-function tables) sees the expanded function
             old.body = new.body
